@@ -10,6 +10,7 @@ import (
 	"fmt"
 	"go/ast"
 	"go/format"
+	"go/printer"
 	"go/parser"
 	"go/token"
 	"os"
@@ -267,7 +268,7 @@ func rewriteSync(path string, src []byte, chans, points bool) ([]byte, []string,
 		for _, st := range list {
 			if points {
 				switch st.(type) {
-				case *ast.DeclStmt, *ast.LabeledStmt:
+				case *ast.DeclStmt, *ast.LabeledStmt, *ast.CaseClause, *ast.CommClause:
 				default:
 					outl = append(outl, &ast.ExprStmt{X: &ast.CallExpr{Fun: vs("Point")}})
 					changed = true
@@ -322,8 +323,25 @@ func rewriteSync(path string, src []byte, chans, points bool) ([]byte, []string,
 	if needVsched {
 		addImport(f, modPath+"/vsched", "vsched")
 	}
+	if points {
+		// free-floating comments between statements confuse the printer once
+		// position-less statements are inserted: keep only the comments in
+		// front of the package clause (build constraints)
+		var keep []*ast.CommentGroup
+		for _, cg := range f.Comments {
+			if cg.End() < f.Package {
+				keep = append(keep, cg)
+			}
+		}
+		f.Comments = keep
+	}
 	var buf bytes.Buffer
 	if err := format.Node(&buf, fset, f); err != nil {
+		if dump := os.Getenv("INSTR_DUMP"); dump != "" {
+			var b2 bytes.Buffer
+			_ = printer.Fprint(&b2, fset, f)
+			_ = os.WriteFile(dump, b2.Bytes(), 0o644)
+		}
 		return nil, nil, err
 	}
 	return buf.Bytes(), notes, nil
